@@ -86,7 +86,10 @@ enum Rec {
     KeyAdded { key: u64, aid: u64 },
     /// every key object registered so far under name `key` was cancelled (`model`: by a handler of that model)
     Cancelled { key: u64, model: Option<usize> },
-    Ext { aid: u64, ok: bool },
+    /// a Scheduler request issued from inside `Clock::synchronize(sync)`: `abs` = its absolute deadline, if it has one
+    Ext { aid: u64, ok: bool, abs: Option<u64>, sync: u64 },
+    /// the init of `model` (it has an init script) saw the simulation time `seen`
+    InitSeen { model: usize, seen: u64 },
 }
 
 #[derive(Default)]
@@ -132,6 +135,11 @@ impl M {
         let seen = ns(cx.time());
         if std::env::var("VERIF_DEBUG").is_ok() { eprintln!("inp aid={aid} model={} seen={seen}", self.idx); }
         self.sh.log.lock().unwrap().push(Rec::Fire { aid, model: self.idx, seen });
+        self.run_script(aid, cx);
+        self.sh.busy.lock().unwrap()[self.idx] = false;
+    }
+    /// the script registered under `aid`: schedule on the model's own context, cancel keys
+    fn run_script(&mut self, aid: u64, cx: &mut Context<Self>) {
         let lines = self.sh.scripts.lock().unwrap().get(&aid).cloned().unwrap_or_default();
         for l in lines {
             match l {
@@ -167,10 +175,20 @@ impl M {
                 }
             }
         }
-        self.sh.busy.lock().unwrap()[self.idx] = false;
     }
 }
-impl Model for M {}
+/// action id under which the init script of model `m` is registered
+const INIT_AID: u64 = 9_000_000;
+impl Model for M {
+    async fn init(mut self, cx: &mut Context<Self>) -> nexosim::model::InitializedModel<Self> {
+        let aid = INIT_AID + self.idx as u64;
+        if self.sh.scripts.lock().unwrap().contains_key(&aid) {
+            self.sh.log.lock().unwrap().push(Rec::InitSeen { model: self.idx, seen: ns(cx.time()) });
+            self.run_script(aid, cx);
+        }
+        self.into()
+    }
+}
 
 struct ExtReq {
     m: usize,
@@ -197,7 +215,11 @@ impl Clock for ScriptClock {
             if let Some((sched, addrs)) = &*self.handle.lock().unwrap() {
                 for r in reqs {
                     let res = do_sched(sched, &addrs[r.m], r.dl, &r.kind, r.period, r.aid, r.key, &self.sh);
-                    self.sh.log.lock().unwrap().push(Rec::Ext { aid: r.aid, ok: res == "ok" });
+                    let abs = match r.dl {
+                        Dl::Abs(t) => Some(t),
+                        Dl::Rel(_) => None,
+                    };
+                    self.sh.log.lock().unwrap().push(Rec::Ext { aid: r.aid, ok: res == "ok", abs, sync: ns(deadline) });
                 }
             }
         }
@@ -302,6 +324,8 @@ struct Mon {
     group_last: HashMap<(usize, usize, u64), (u64, u64)>,
     /// C11: the first fatal error a run call returned
     fatal: Option<String>,
+    /// periodic actions built from an EventSource and accepted by the scheduler: aid -> (first deadline, period)
+    src_periodic: HashMap<u64, (u64, u64)>,
 }
 impl Mon {
     /// an action was accepted for the absolute time `t` (origin 0 = driver / event source, m + 1 = model m)
@@ -335,7 +359,7 @@ fn render(recs: &[Rec], drv: &HashSet<u64>) -> String {
                 flush(&mut cur, &mut out);
                 out.push(format!("S{t}"));
             }
-            Rec::Ext { aid, ok } => {
+            Rec::Ext { aid, ok, .. } => {
                 flush(&mut cur, &mut out);
                 out.push(format!("X{aid}:{}", if *ok { "ok" } else { "rej" }));
             }
@@ -343,7 +367,7 @@ fn render(recs: &[Rec], drv: &HashSet<u64>) -> String {
                 let origin = if drv.contains(aid) { 0 } else { model + 1 };
                 cur.push((*model, origin, format!("F{aid}@{model}:{seen}")));
             }
-            Rec::KeyAdded { .. } | Rec::Cancelled { .. } | Rec::HSched { .. } => {}
+            Rec::KeyAdded { .. } | Rec::Cancelled { .. } | Rec::HSched { .. } | Rec::InitSeen { .. } => {}
         }
     }
     flush(&mut cur, &mut out);
@@ -514,6 +538,56 @@ fn run_case(lines: Vec<String>, hints: Arc<Mutex<Vec<String>>>, resp: Arc<Mutex<
                         mon.last_now = now;
                         bench = Some(Bench { sim, sched, addrs, srcs });
                         let recs = sh.log.lock().unwrap()[log_start..].to_vec();
+                        // C01 / C10: the models' init runs at the start time; a periodic action scheduled there with a relative
+                        // first deadline d runs at t0 + d + k * period
+                        let mut seen_by: HashMap<usize, u64> = HashMap::new();
+                        let ids: Vec<usize> = bench.as_ref().unwrap().addrs.iter().map(|a| format!("{:?}", a).split('"').nth(1).and_then(|s| s.parse().ok()).unwrap_or(0)).collect();
+                        let dump: Vec<(u64, usize)> = bench
+                            .as_ref()
+                            .unwrap()
+                            .sim
+                            .verif_queue_dump()
+                            .into_iter()
+                            .map(|(t, o, _, _)| (ns(t), if o == 0 { 0 } else { ids.iter().position(|x| *x == o).map(|p| p + 1).unwrap_or(999) }))
+                            .collect();
+                        for (t, _) in &dump {
+                            if *t <= now {
+                                mon.hit("C01", format!("after `{l}`: a pending action has deadline {t} <= current time {now}"));
+                            }
+                        }
+                        for r in &recs {
+                            if let (Rec::HSched { model, aid, t, period }, true) = (r, true) {
+                                if let Some(Rec::InitSeen { seen, .. }) = recs.iter().find(|x| matches!(x, Rec::InitSeen { model: m2, .. } if m2 == model)) {
+                                    let expected = t0 + (t - (*seen).min(*t));
+                                    if !dump.iter().any(|(dt, o)| *dt == expected && *o == model + 1) {
+                                        let what = if *period > 0 { format!("periodic action {aid} (period {period})") } else { format!("action {aid}") };
+                                        mon.hit(if *period > 0 { "C10" } else { "C01" }, format!("`{l}`: the init of model {model} scheduled {what} for {} ns after the start time {t0}, but no action of that model is queued for time {expected} (queue: {:?})", expected - t0, dump));
+                                    }
+                                }
+                            }
+                        }
+                        for r in &recs {
+                            match r {
+                                Rec::InitSeen { model, seen } => {
+                                    seen_by.insert(*model, *seen);
+                                    if *seen != t0 {
+                                        mon.hit("C01", format!("`{l}`: the init of model {model} saw the simulation time {seen}, the simulation starts at {t0}"));
+                                    }
+                                }
+                                Rec::HSched { model, aid, t, period } if *period > 0 => {
+                                    if let Some(seen) = seen_by.get(model) {
+                                        // the harness computed `t` from the time the init saw; what the property requires is
+                                        // relative to the start time
+                                        let expected = t0 + (t - seen.min(t));
+                                        let keyed = recs.iter().any(|x| matches!(x, Rec::KeyAdded { aid: a2, .. } if a2 == aid));
+                                        if !mon.series.contains_key(aid) && !keyed {
+                                            mon.series.insert(*aid, (expected, *period, None, *model));
+                                        }
+                                    }
+                                }
+                                _ => {}
+                            }
+                        }
                         format!("ok now={now} | {}", render(&recs, &drv))
                     }
                     Err(e) => format!("{} now=? |", exec_err(&e)),
@@ -590,6 +664,12 @@ fn run_case(lines: Vec<String>, hints: Arc<Mutex<Vec<String>>>, resp: Arc<Mutex<
                         }
                         if r == "ok" {
                             mon.note_sched(aid, t, 0, if periodic { period.as_nanos() as u64 } else { 0 });
+                            if *kind == "keyed" || *kind == "kper" {
+                                mon.key_of_aid.insert(aid, key);
+                            }
+                            if periodic {
+                                mon.src_periodic.insert(aid, (t, period.as_nanos() as u64));
+                            }
                         }
                         r.to_string()
                     }
@@ -699,15 +779,32 @@ fn run_case(lines: Vec<String>, hints: Arc<Mutex<Vec<String>>>, resp: Arc<Mutex<
                                 }
                             }
                             // C09: cancelled by the driver in an earlier command → never fires afterwards
-                            if let Some(k) = mon.key_of_aid.get(aid) {
-                                if let Some(ct) = mon.cancelled_at.get(k) {
-                                    let _ = ct;
+                            if let Some(k) = mon.key_of_aid.get(aid).copied() {
+                                if mon.cancelled_at.contains_key(&k) {
                                     mon.hit("C09", format!("`{l}`: action {aid} (key {k}) ran at time {seen} although its key was cancelled before this call"));
+                                    let per = mon.series.get(aid).map(|x| (x.0, x.1)).or_else(|| mon.src_periodic.get(aid).copied());
+                                    if let Some((t0p, p)) = per {
+                                        mon.hit("C10", format!("`{l}`: the occurrence at {seen} of periodic action {aid} (t0={t0p}, period={p}, key {k}) ran although the action had been cancelled before this call: a periodic action runs until it is cancelled"));
+                                    }
                                 }
                             }
                         }
-                        Rec::Ext { .. } | Rec::KeyAdded { .. } | Rec::Cancelled { .. } | Rec::HSched { .. } => {}
+                        Rec::Ext { aid, ok, abs, sync } => {
+                            // C08: while the clock is being synchronized on `sync` the simulation time is already `sync`:
+                            // a request for a deadline that is not after it must be refused
+                            if let (true, Some(t)) = (*ok, *abs) {
+                                if t <= *sync && w[0] != "proc" {
+                                    mon.hit("C08", format!("`{l}`: a Scheduler request (action {aid}) for the absolute time {t}, issued while the step to time {sync} was in progress (inside Clock::synchronize({sync})), was accepted although {t} is not after the time of the step"));
+                                }
+                            }
+                        }
+                        Rec::KeyAdded { .. } | Rec::Cancelled { .. } | Rec::HSched { .. } | Rec::InitSeen { .. } => {}
                     }
+                }
+                // C01: a step that moves the time runs the action(s) due at the new time
+                let empty_src = src_decl.iter().any(|(_, ms)| ms.is_empty());
+                if w[0] == "step" && res.is_ok() && now != before && !empty_src && !recs.iter().any(|r| matches!(r, Rec::Fire { seen, .. } if *seen == now)) {
+                    mon.hit("C01", format!("`{l}` moved the time from {before} to {now} although no live action was due at {now} (nothing ran at that time): step() advances to the earliest pending non-cancelled deadline"));
                 }
                 // C18: the step fails with OutOfSync only for a lag above the configured tolerance, and reports that lag
                 if let Err(ExecutionError::OutOfSync(got)) = &res {
@@ -1198,6 +1295,24 @@ fn gen_case(rng: &mut Rng, tier: Tier, focus: &str) -> Case {
         cmds.push("step".into());
     }
     cmds.push("queue".into());
+    // an init script for one model: what `Model::init` schedules on its own context (relative deadlines from the start time)
+    if rng.chance(1, if focus == "C10" || focus == "C01" || focus == "C18" { 3 } else { 6 }) {
+        let m = rng.below(nmodels as u64);
+        let init_aid = INIT_AID + m;
+        for _ in 0..rng.range(1, 3) {
+            let kind = *rng.pick(&["once", "per", "per", "keyed", "kper"]);
+            let dl = *rng.pick(&[0u64, 1, 2, 3, 5, 10]);
+            let p = if rng.chance(1, 12) { 0 } else { *rng.pick(&periods) };
+            let a2 = next_aid;
+            next_aid += 1;
+            let k = next_key;
+            next_key += 1;
+            hlines.push(format!("h {init_aid} s rel {dl} {kind} {p} {a2} {k}"));
+            if rng.chance(1, 3) {
+                gen_script(rng, a2, &mut next_aid, &mut next_key, &mut hlines, &periods, 1, false);
+            }
+        }
+    }
     lines.extend(hlines);
     lines.extend(ext_lines);
     lines.push("init".into());
